@@ -13,6 +13,8 @@ import traceback
 sys.dont_write_bytecode = True
 sys.path.insert(0, os.path.dirname(os.path.abspath(__file__)))
 import lib  # noqa
+import builtins as _builtins  # noqa
+_REAL_PRINT = _builtins.print       # some scenarios stub `print` in the process; the verdict must never depend on their clean-up
 import warnings  # noqa
 warnings.filterwarnings('ignore')
 
@@ -108,6 +110,8 @@ def main():
             ctx.extra['leanchecker'] = 'ok' if ok else out
             if not ok:
                 audit['failed']['<leanchecker>'] = out[-500:]
+        _builtins.print = _REAL_PRINT
+        sys.stdout, sys.stderr = sys.__stdout__, sys.__stderr__
         return lib.finish(ctx, audit)
     except lib.InfraError as e:
         print('INFRA-ERROR property=%s %s' % (pid, e))
